@@ -703,7 +703,7 @@ fn lex_source_into_buffer<'source: 'tokens, 'tokens: 'buffer, 'buffer>(
 					{
 						let start_of_escape = location.end - 1;
 						location.end += 1;
-						match iter.next()
+						match iter.next_if(|&(_, y)| y != b'\n')
 						{
 							Some((_, b'n')) => push_byte(b'\n'),
 							Some((_, b'r')) => push_byte(b'\r'),
@@ -855,7 +855,7 @@ fn lex_source_into_buffer<'source: 'tokens, 'tokens: 'buffer, 'buffer>(
 					{
 						let start_of_escape = location.end - 1;
 						location.end += 1;
-						match iter.next()
+						match iter.next_if(|&(_, y)| y != b'\n')
 						{
 							Some((_, b'n')) => push_byte(b'\n'),
 							Some((_, b'r')) => push_byte(b'\r'),
